@@ -95,6 +95,37 @@ func traceCLI(o opts) error {
 	}
 	su := superuser()
 	caseNo := 0
+	// one large binary value (just over a mebibyte), from a file and from a pipe: sent as it is
+	{
+		big := make([]byte, 1<<20+17)
+		r.Read(big)
+		big[0], big[len(big)-1] = 0xff, 0xfe // certainly not UTF-8, no white space at the ends
+		for _, src := range []string{"file", "pipe"} {
+			name := "cli/big-" + src
+			args := []string{"-s", ls.hs.URL, "put"}
+			cmd := exec.Command(o.aux)
+			if src == "file" {
+				fp := filepath.Join(o.dir, "big.bin")
+				os.WriteFile(fp, big, 0600)
+				args = append(args, "--from-file", fp)
+			} else {
+				cmd.Stdin = bytes.NewReader(big)
+			}
+			cmd.Args = append([]string{o.aux}, append(args, name)...)
+			var outb bytes.Buffer
+			cmd.Stdout, cmd.Stderr = &outb, &outb
+			exit := 0
+			if err := cmd.Run(); err != nil {
+				exit = 1
+			}
+			match, storedLen := "0", -1
+			if sv, err := ls.d.Get(su, name); err == nil {
+				storedLen = len(sv.Value)
+				match = b01(bytes.Equal(sv.Value, big))
+			}
+			emit("clibig\tsrc=%s\tlen=%d\texit=%d\tstoredlen=%d\tmatch=%s", src, len(big), exit, storedLen, match)
+		}
+	}
 	for _, val := range values {
 		for flags := 0; flags < 8; flags++ {
 			for _, src := range []string{"file", "pipe"} {
@@ -269,8 +300,21 @@ func traceBytes(o opts) error {
 			fcl = "ERR"
 		}
 		os.Remove(cachePath)
+		// the name is deleted and created again with other bytes (its numbering restarts): what is
+		// served is what was put last
+		reName := name + "/again"
+		other := nearDup(r, c.val)
+		cl.Put(cx, reName, c.val)
+		cl.Get(cx, reName)
+		cl.Delete(cx, reName)
+		reOK := "0"
+		if _, err := cl.Put(cx, reName, other); err == nil {
+			if g2, err := cl.Get(cx, reName); err == nil && bytes.Equal(g2.Value, other) {
+				reOK = "1"
+			}
+		}
 		recs = append(recs, rec{tc: c, name: name, ver: ver,
-			line: fmt.Sprintf("bytes\tclass=%s\tlen=%d\tput=%s\tget=%s\tgetver=%s\tstore=%s\tcache=%s\tfileclient=%s", c.class, len(c.val), digest(c.val), digest(g.Value), digest(gv.Value), digest(sv), cacheV, fcl)})
+			line: fmt.Sprintf("bytes\tclass=%s\tlen=%d\tput=%s\tget=%s\tgetver=%s\tstore=%s\tcache=%s\tfileclient=%s\trecreated=%s", c.class, len(c.val), digest(c.val), digest(g.Value), digest(gv.Value), digest(sv), cacheV, fcl, reOK)})
 	}
 	// server restart: a new process-equivalent (fresh db.Open on the same file, new server)
 	ls.stop()
